@@ -205,8 +205,14 @@ func DecodeCatalog(c Cursor, obj Object, _ bool) (*Catalog, error) {
 		}
 	}
 
-	pageLayout, _ := c.Name(dict["PageLayout"])
-	pageMode, _ := c.Name(dict["PageMode"])
+	pageLayout, err := Optional(c.Name(dict["PageLayout"]))
+	if err != nil {
+		return nil, err
+	}
+	pageMode, err := Optional(c.Name(dict["PageMode"]))
+	if err != nil {
+		return nil, err
+	}
 
 	var outlines Reference
 	if ref, ok := dict["Outlines"].(Reference); ok {
@@ -220,13 +226,19 @@ func DecodeCatalog(c Cursor, obj Object, _ bool) (*Catalog, error) {
 
 	var lang language.Tag
 	if dict["Lang"] != nil {
-		langStr, err := c.TextString(dict["Lang"])
-		if err == nil && langStr != "" {
+		langStr, err := Optional(c.TextString(dict["Lang"]))
+		if err != nil {
+			return nil, err
+		}
+		if langStr != "" {
 			lang, _ = language.Parse(string(langStr))
 		}
 	}
 
-	needsRendering, _ := c.Boolean(dict["NeedsRendering"])
+	needsRendering, err := Optional(c.Boolean(dict["NeedsRendering"]))
+	if err != nil {
+		return nil, err
+	}
 
 	// Metadata stream (eager decode; PDF 1.4)
 	metadata, err := DecodeOptional(c, dict["Metadata"], ExtractMetadataStream)
